@@ -335,6 +335,14 @@ class Engine(
                     # before this Sort via a nested subquery (which means we
                     # apply a new Sort-only Select to 'select' itself).
                     return Select.apply_skip(select, sort=operation)
+                elif select.is_compound and not all(
+                    isinstance(term.expression, ColumnReference) for term in operation.terms
+                ):
+                    # The ORDER BY of a UNION [ALL] may only name its result
+                    # columns, so sorting by a general expression has to
+                    # happen in an outer query over the UNION.
+                    subquery = select.reapply_skip(sort=None)
+                    return Select.apply_skip(subquery, sort=select.sort.then(operation))
                 else:
                     return select.reapply_skip(sort=select.sort.then(operation))
             case PartialJoin(binary=binary, fixed=fixed, fixed_is_lhs=fixed_is_lhs):
